@@ -1,7 +1,23 @@
 import PbVerif.Model.Proto
 import PbVerif.Model.Kernels
+import PbVerif.Model.Kernels2
+import PbVerif.Model.BSpline
 namespace PbVerif.Drv.C05
 open PbVerif PbVerif.Proto PbVerif.Kernels
+
+def showAcc (t : BandAcc) : String := s!"{t.ra}:{t.ca}:{t.rb}:{t.cb}:{t.rc}:{t.cc}"
+
+def showEv : Ev → String
+  | .ix p => s!"i{p}"
+  | .x i => s!"x{i}"
+  | .y i => s!"y{i}"
+  | .xs lo hi => s!"s{lo}:{hi}"
+  | .os lo hi => s!"o{lo}:{hi}"
+  | .am lo hi => s!"s{lo}:{hi}"
+
+def bit (b : Bool) : String := if b then "1" else "0"
+
+def parseBits (s : String) : List Bool := if s = "-" then [] else s.toList.map (· == '1')
 
 def handle : List String → Option String
   | ["c05.dirmin", dataLen, hw] => do some (showInts (dirMinMovAvgIdx (← dataLen.toNat?) (← hw.toNat?)))
@@ -9,6 +25,54 @@ def handle : List String → Option String
       let n ← numY.toNat?
       let h ← hw.toNat?
       some s!"{showInts (rollingStdDataIdx n h)}|{showInts (rollingStdSqIdx n h)}"
+  | ["c05.banddot", al, au, bl, bu, cu, n, lb] => do
+      some (showList showAcc (bandDotIdx (← al.toNat?) (← au.toNat?) (← bl.toNat?) (← bu.toNat?) (← cu.toInt?) (← n.toNat?) (← lb.toNat?)))
+  | ["c05.bandpre", rA, cA, rB, cB, rC, cC, al, au, bl, bu, cu, n, lb] => do
+      some (bit (decide (BandPre (← rA.toNat?) (← cA.toNat?) (← rB.toNat?) (← cB.toNat?) (← rC.toNat?) (← cC.toNat?)
+        (← al.toNat?) (← au.toNat?) (← bl.toNat?) (← bu.toNat?) (← cu.toInt?) (← n.toNat?) (← lb.toNat?))))
+  | ["c05.bdbargs", al, au, bl, bu, fa, fb, sym] => do
+      let al ← al.toNat?; let au ← au.toNat?; let bl ← bl.toNat?; let bu ← bu.toNat?
+      let fa ← fa.toInt?; let fb ← fb.toInt?
+      let r := bdbArgs al au bl bu fa fb (sym == "1")
+      some s!"{r.1} {r.2.1} {r.2.2} {bdbRows al au bl bu fa fb}"
+  | ["c05.bezier", n, ny, ix, am, eq] => do
+      let n ← n.toNat?; let ny ← ny.toNat?
+      let ix ← parseList? parseInt? ix
+      let am ← parseList? parseNat? am
+      let eq := parseBits eq
+      let tr := bezierTrace n ny ix (fun k => am.getD k 0) (fun j => eq.getD j false)
+      some s!"{bit (bezPreB n ix)}|{bit (tr.all fun e => decide (e.Ok n ny ix.length))}|{showList showEv tr}"
+  | ["c05.peaksegs", bits] =>
+      let m := parseBits bits
+      some s!"{showInts (adjStarts (peakSegs true 0 m).1)}|{showInts (adjEnds m.length (peakSegs true 0 m).2)}"
+  | ["c05.qbez"] => some (showInts quadBezierIdx)
+  | ["c05.flatnonzero", bits] => some (showInts (flatnonzero (parseBits bits)))
+  | ["c05.interp", nx, ny] => do
+      let nx ← nx.toNat?; let ny ← ny.toNat?
+      some s!"{showInts interpScalarIdx}|{(interpSliceLens nx ny).1}|{(interpSliceLens nx ny).2}"
+  | ["c05.fillskips", nx, nb, l, r] => do
+      let c := fillSkipsCall (← nx.toNat?) (← nb.toNat?) (← l.toInt?) (← r.toInt?)
+      some s!"{showInts c.1}|{c.2.1}|{c.2.2}"
+  | ["c05.lsolve", m, w, wb] => do
+      match loessSolverShape (← m.toNat?) (← w.toNat?) (← wb.toNat?) with
+      | some k => some (toString k)
+      | none => some "shape"
+  | ["c05.loessiter", n, po, tp, cached, i, l, r] => do
+      let it := loessIter (← n.toNat?) (← po.toNat?) (← tp.toNat?) (cached == "1") (← i.toInt?) (← l.toInt?) (← r.toInt?)
+      let sv := match it.solver with | some k => toString k | none => "shape"
+      some s!"{it.wlen}|{it.rowIdx}|{showInts it.diffIdx}|{it.kernelLen}|{sv}"
+  | ["c05.loessguards", n, tp, po] => do some (bit (loessGuards (← n.toNat?) (← tp.toInt?) (← po.toInt?)))
+  | ["c05.peakargs", sec, lp, rp, hw] => do
+      let r := peakFillingArgs (← sec.toInt?) (← lp.toNat?) (← rp.toNat?) (← hw.toInt?)
+      some s!"{r.1} {r.2.1} {r.2.2}"
+  | ["c05.padlen", n, hw] => do
+      match paddedLen (← n.toNat?) (← hw.toInt?) with
+      | some l => some (toString l)
+      | none => some "none"
+  | ["c05.splinepre", nk, deg] => do
+      let nk ← nk.toNat?; let deg ← deg.toNat?
+      let len := (BSpline.splineKnots 0 1 nk deg).length
+      some s!"{len} {len - (deg + 1)}"
   | _ => none
 
 end PbVerif.Drv.C05
